@@ -1,4 +1,5 @@
 import FalconModel.CookieOut
+import FalconModel.Cookies
 open Cw
 
 /-! Line-protocol driver for the response-cookie model (C15).  Strings are code points in hex joined by `.`, `-` is the empty
@@ -8,6 +9,9 @@ open Cw
       unset NAME SAMESITE DOMAIN PATH              -> ok | err KIND
       emit T                                       -> lines L,L,…  | lines -      (the set-cookie values produced at `floor(time()) = T`)
       setcookie SECDEF NAME VALUE … PARTITIONED    -> line L | err KIND            (stateless `setCookieLine`)
+      echo HDR                                     -> jar N=V/V,N=V,… | jar -      (`Ck.parseCookieHeader`: what `_parse_cookie_header` makes of the
+                                                                                    Cookie header HDR, names in first-seen order, every value per name)
+      unquote S                                    -> S'                            (`Ck.cUnquote`, the model of `http.cookies._unquote`)
     EXPIRES = N | y,m,d,h,mi,s,OFF (OFF = n for naive, else utcoffset seconds); MAXAGE = N | i<int> | s<str> | f<num>/<den>;
     SECURE = N|0|1 -/
 
@@ -86,6 +90,10 @@ def step (st : St) (line : String) : St × String :=
     | none => (st, "bad-op")
     | some s =>
       (st, match setCookieLine ⟨sd == "1"⟩ s with | .ok l => "line " ++ enc l | .error e => "err " ++ errName e)
+  | ["echo", h] =>
+    let j := Ck.parseCookieHeader (dec h)
+    (st, "jar " ++ (if j.isEmpty then "-" else ",".intercalate (j.map fun nv => enc nv.1 ++ "=" ++ "/".intercalate (nv.2.map enc))))
+  | ["unquote", v] => (st, enc (Ck.cUnquote (dec v)))
   | _ => (st, "bad-op")
 
 partial def loop (h : IO.FS.Stream) (st : St) : IO Unit := do
